@@ -118,12 +118,33 @@ pub fn gen_case(t: &mut Tape) -> Case {
             }
             sc
         };
-        let scs: Vec<_> = (0..t.pick(4)).map(|si| mk(t, format!("F{fi}.S{si}"), &mut line)).collect();
+        // Rows expanded from one outline share name, tags and `examples` and differ in position and
+        // step texts only: the filter decides about each of them on its own.
+        fn twin_rows(t: &mut Tape, list: &mut Vec<gherkin::Scenario>) {
+            let mut i = 0;
+            while i < list.len() {
+                if !list[i].examples.is_empty() && t.chance(1, 2) {
+                    for k in 1..=t.range(1, 2) {
+                        let mut row = list[i].clone();
+                        row.position.line += 50 + k;
+                        for st in &mut row.steps {
+                            st.value = format!("{} row {k}", st.value);
+                        }
+                        list.insert(i + k, row);
+                    }
+                    i += 2;
+                }
+                i += 1;
+            }
+        }
+        let mut scs: Vec<_> = (0..t.pick(4)).map(|si| mk(t, format!("F{fi}.S{si}"), &mut line)).collect();
+        twin_rows(t, &mut scs);
         let mut rules = vec![];
         for ri in 0..t.pick(3) {
             let rl = line;
             line += 1;
-            let rs: Vec<_> = (0..t.pick(3)).map(|si| mk(t, format!("F{fi}.R{ri}.S{si}"), &mut line)).collect();
+            let mut rs: Vec<_> = (0..t.pick(3)).map(|si| mk(t, format!("F{fi}.R{ri}.S{si}"), &mut line)).collect();
+            twin_rows(t, &mut rs);
             rules.push(gherkin::Rule { keyword: "Rule".into(), name: format!("F{fi}.R{ri}"), description: None, background: None, scenarios: rs, tags: gen_tags(t, 35), span: gherkin::Span::default(), position: gherkin::LineCol { line: rl, col: 3 } });
         }
         features.push(gherkin::Feature {
